@@ -31,7 +31,8 @@ class LogCapture(logging.Handler):
         self.records.append(record.getMessage())
 
 
-def run_tool(impl, src: Path, out: Path, *, style="plaintext", test_run=False, convert=False, tsp="CODE", tsw="WARN"):
+def run_tool(impl, src: Path, out: Path, *, style="plaintext", test_run=False, convert=False, tsp="CODE", tsw="WARN",
+             out_as_given=False):
     """returns dict(outcome=ok|NoFiles|exc, exc=, site=, files={rel: text}, api=json, warnings=[...])"""
     D = impl.doc.DocstringStyle
     A = impl.analyzer
@@ -50,7 +51,8 @@ def run_tool(impl, src: Path, out: Path, *, style="plaintext", test_run=False, c
     sys.path[:] = [p for p in sys.path if p not in ("", ".") and not rsrc.startswith(os.path.abspath(p).rstrip("/") + "/")]
     try:
         impl.cli._run_stub_generator(
-            src_dir_path=src.resolve(), out_dir_path=out.resolve(), docstring_style=getattr(D, STYLES[style]),
+            src_dir_path=src.resolve(), out_dir_path=out if out_as_given else out.resolve(),
+            docstring_style=getattr(D, STYLES[style]),
             is_test_run=test_run, convert_identifiers=convert,
             type_source_preference=getattr(A.TypeSourcePreference, tsp),
             type_source_warning=getattr(A.TypeSourceWarning, tsw))
